@@ -156,7 +156,17 @@ func main() {
 
 	var scs []Scenario
 	var labels []string
+	mr := r.Fork() // SDK shape: a third of the scenarios install an SDK with 2-3 readers
 	add := func(label string, sc Scenario) {
+		if sc.Kind == "seq" || sc.Kind == "storm" {
+			if mr.Chance(1, 3) {
+				sc.Readers = mr.Range(2, 3)
+				sc.Concurrent = mr.Bool()
+			}
+			if sc.Kind == "storm" && sc.Storm != nil && (sc.Storm.Sweep || sc.Storm.Unregs > 0) && mr.Chance(1, 2) {
+				sc.SlowRegUs = vgen.Pick(mr, []int{30, 100, 300}) // Unregister races a slow hand-over
+			}
+		}
 		scs = append(scs, sc)
 		labels = append(labels, label)
 	}
@@ -302,6 +312,14 @@ func judge(w *vgen.Writer, oc outcome) {
 		desc["overlap"] = oc.sc.Overlap
 	default:
 		desc["storm"] = oc.sc.Storm
+	}
+	if oc.sc.Readers > 1 {
+		desc["sdk_readers"] = oc.sc.Readers
+		desc["concurrent_collect"] = oc.sc.Concurrent
+		w.Tally(fmt.Sprintf("sdk-readers:%d concurrent:%v", oc.sc.Readers, oc.sc.Concurrent))
+	}
+	if oc.sc.SlowRegUs > 0 {
+		desc["slow_register_us"] = oc.sc.SlowRegUs
 	}
 	if oc.race && strings.Contains(oc.stderr, "DATA RACE") {
 		desc["stderr"] = oc.stderr
